@@ -4,6 +4,7 @@
   Weights `≥ 0`, `Σ w = 1` throughout.
 -/
 import Proofs.C20
+import Proofs.C20Avg
 
 namespace Taurex.C20
 open Taurex.Emission Taurex.KTau
@@ -119,5 +120,43 @@ example : emissionK ⟨3, 1, 1, 1, 1, 1⟩ [(Kind.sq, [1, 1])] [[2, 2], [3, 3]] 
     | 1, 1, _ => rfl
     | k + 2, 0, _ => simp [at3]
     | k + 2, 1, _ => simp [at3]) (by norm_num)
+
+/-- **linear identification**: the weight-averaged optical depth of the g-points is the optical depth of the
+    weight-averaged coefficient -/
+theorem k_avg_linear (sigma3 : List (List ℝ)) (path dens ws : List ℝ) (n l : Nat) :
+    ((((List.range ws.length).map (tauG sigma3 path dens n l)).zip ws).map (fun p => p.1 * p.2)).sum
+      = tauRowX ((List.range n).map (avgSigma sigma3 ws)) path dens n l 0 := by
+  rw [zip_range_map]
+  unfold tauG tauRowX
+  simp only [foldl_add_sum', zero_add]
+  have h := sum_comm_range (fun k g => at3 sigma3 (k + l) g) (fun k => path.getD k 0 * dens.getD (k + l) 0)
+    (fun g => ws.getD g 0) (n - l) ws.length
+  simp only [← mul_assoc] at h
+  rw [h]
+  congr 1
+  apply List.map_congr_left
+  intro k hk
+  have hk' : k + l < n := by
+    have := List.mem_range.1 hk; omega
+  have : ((List.range n).map (avgSigma sigma3 ws)).getD (k + l) 0 = avgSigma sigma3 ws (k + l) := by
+    simp [List.getD_eq_getElem?_getD, hk']
+  rw [this]
+  unfold avgSigma
+  ring
+
+/-- **Jensen at row level**: the k-transmittance of a tangent layer is at least the transmittance obtained from the
+    weight-averaged coefficient used as a cross-section -/
+theorem k_jensen_row (sigma3 : List (List ℝ)) (path dens ws : List ℝ) (n l : Nat)
+    (hw0 : ∀ w ∈ ws, 0 ≤ w) (hw : ws.sum = 1) :
+    Real.exp (-(tauRowX ((List.range n).map (avgSigma sigma3 ws)) path dens n l 0))
+      ≤ transK ((List.range ws.length).map (tauG sigma3 path dens n l)) ws := by
+  rw [← k_avg_linear]
+  exact k_jensen _ ws (by simp) hw0 hw
+
+/-- NV: two layers, two g-points, weights 1/4 and 3/4 -/
+example : (∀ w ∈ [(1/4 : ℝ), 3/4], 0 ≤ w) ∧ [(1/4 : ℝ), 3/4].sum = 1 := by
+  constructor
+  · intro w hw; simp at hw; rcases hw with rfl | rfl <;> norm_num
+  · norm_num
 
 end Taurex.C20
